@@ -47,7 +47,7 @@ def generate(rng, tier, idx, keep_going=False):
         if rng.random() < 0.3:
             lm = rng.choice([-4, -3, -2, -1, 0, 1, 2, 3]) + rng.choice([0, 0, 0.5])
         api = 'both' if top == 'Manifest' and rng.random() < 0.6 else 'lib'
-        ops.append({'op': 'verify', 'sub': sub, 'last_mtime': lm, 'api': api})
+        ops.append({'op': 'verify', 'sub': sub, 'last_mtime': lm, 'api': api, 'slash': rng.random() < 0.25})
     lms = [o['last_mtime'] for o in ops if o.get('last_mtime') is not None]
     if lms and rng.random() < 0.5:
         # same-size tampering stamped shortly AFTER a last_mtime of the run: within the same whole second, the next
@@ -94,7 +94,7 @@ def execute(sc):
 
                 def lib():
                     m = ManifestRecursiveLoader(top_path)
-                    return m.assert_directory_verifies(sub, last_mtime=lm_abs)
+                    return m.assert_directory_verifies(sub + '/' if (sub and op.get('slash')) else sub, last_mtime=lm_abs)
                 r = call(lib)
                 cli = None
                 real_sub = os.path.realpath(os.path.join(w.root, sub)) == os.path.normpath(os.path.join(w.root, sub))
